@@ -9,7 +9,7 @@ EXPLANATION = (
     "stored frame counter. [RA-RESET] on the restart path every attribute that fast_pgn_metadata.__init__ creates is re-initialised before the store. "
     "[RA-PRE] a non-first frame with nothing in progress returns before any write; all record writes lie behind that test. [RA-ORDER] the concatenation "
     "iterates sorted(frames). [RA-DONE] completion is `stored >= announced`, nothing is decoded while incomplete, the record is deleted on every normal "
-    "path from completion to the return. [RA-TRUNC] the payload handed to the decoder is cut to the announced length. [RA-SAFE] every indexed read that "
+    "path from completion to the return. [RA-COUNT] the completion counter is increased by the length of exactly the bytes stored for the frame. [RA-TRUNC] the payload handed to the decoder is cut to the announced length. [RA-SAFE] every indexed read that "
     "can fail on a truncated frame precedes all writes to the record on its path. UNDECIDED: correctness over all interleavings, 'returned exactly when "
     "the last missing frame arrives', recovery after loss -- history quantifiers that belong to model checking."
 )
@@ -18,6 +18,6 @@ ASSUMPTIONS = ["CPython ast parser", "cfg.py (if/elif/else, returns)", "sym.py d
 def run(chk, program, tier):
     for r, t in (('RA-KEY', 'stream key'), ('RA-SEQ', 'other-sequence frames rejected'), ('RA-DUP', 'duplicates rejected'), ('RA-RESET', 'restart resets the record'),
                  ('RA-PRE', 'later frame without first frame dropped before writes'), ('RA-ORDER', 'sorted concatenation'), ('RA-DONE', 'completion and deletion'),
-                 ('RA-TRUNC', 'payload bounded by announced length'), ('RA-SAFE', 'raise before write')):
+                 ('RA-TRUNC', 'payload bounded by announced length'), ('RA-COUNT', 'completion counts exactly the stored payload bytes'), ('RA-SAFE', 'raise before write')):
         chk.rule(r, t)
     D.reassembly(chk, program)
